@@ -218,7 +218,7 @@ pub fn generate(rng: &mut Rng, opts: &GenOpts, tag: &str) -> Value {
     }
     // occasionally one connection that is longer than the planning horizon / than 1000 km (the
     // loader reduces such values and says so)
-    if nloc >= 2 && matches!(p, Profile::NonMetric | Profile::Mixed | Profile::Depots) && rng.chance(1, 6) {
+    if nloc >= 2 && (matches!(p, Profile::NonMetric | Profile::Mixed | Profile::Depots) || rng.chance(1, 3)) && rng.chance(1, 6) {
         let i = rng.usize(0, nloc - 1);
         let k = (i + rng.usize(1, nloc - 1)) % nloc;
         if rng.chance(2, 3) {
@@ -336,8 +336,9 @@ pub fn generate(rng: &mut Rng, opts: &GenOpts, tag: &str) -> Value {
 
     let ndep = rng.usize(1, opts.max_departures.max(1));
     // a quarter of the instances start on another calendar day (leap day ahead, turn of the
-    // year / century, beyond 2038); one in twelve spans several days
-    let day0: i64 = if rng.chance(1, 4) { *rng.pick(&[19781i64, 19722, 20147, 11015, 24854, 47480]) * 86400 } else { DAY0 };
+    // year / century, beyond 2038, the 9th of a month or the end of September: without zero
+    // padding "9" sorts after "10" as a string); one in twelve spans several days
+    let day0: i64 = if rng.chance(1, 4) { *rng.pick(&[19781i64, 19722, 20147, 11015, 24854, 47480, 19791, 19791, 19996, 10956]) * 86400 } else { DAY0 };
     let window_start = day0 + rng.range(0, 8) * 3600;
     let window_len: i64 = if rng.chance(1, 12) {
         rng.range(30, 100) * 3600
@@ -671,7 +672,8 @@ pub fn generate(rng: &mut Rng, opts: &GenOpts, tag: &str) -> Value {
             }
             if earliest < latest {
                 let days = (latest - earliest + 86399) / 86400;
-                let long_end = earliest + days * 86400 + rng.range(1, 120) * 60;
+                // a third: the span is an exact multiple of a day
+                let long_end = earliest + days * 86400 + if rng.chance(1, 3) { 0 } else { rng.range(1, 120) * 60 };
                 let long_start = (latest - rng.range(0, 4) * 3600).min(long_end - 4 * 3600);
                 let l = rng.usize(0, nloc - 1);
                 let l2 = rng.usize(0, nloc - 1);
@@ -684,6 +686,10 @@ pub fn generate(rng: &mut Rng, opts: &GenOpts, tag: &str) -> Value {
                 }
             }
         }
+    }
+    // one instance in five spells its timestamps differently
+    if rng.chance(1, 5) {
+        respell_timestamps(rng, &mut root);
     }
     // one instance in eight carries hostile ids
     if rng.chance(1, 8) {
@@ -1315,6 +1321,58 @@ pub fn hostile_ids(rng: &mut Rng, x: &mut Value, tag: &str) -> bool {
         }
     }
     changed
+}
+
+/// other accepted spellings of the same timestamps: without zero padding (as in the repository's
+/// own example inputs: "2024-3-5T4:00:00"), with a space instead of 'T', with a trailing 'Z',
+/// without the seconds when they are zero
+pub fn respell_timestamps(rng: &mut Rng, x: &mut Value) {
+    let style = *rng.pick(&[0u64, 0, 0, 1, 2, 3, 3, 4]);
+    fn respell(rng: &mut Rng, style: u64, s: &str) -> String {
+        let t = match refmodel::time::parse(s) {
+            Ok(t) => t,
+            Err(_) => return s.to_string(),
+        };
+        let days = t.div_euclid(86400);
+        let rem = t.rem_euclid(86400);
+        let (y, m, d) = refmodel::time::civil_from_days(days);
+        let (hh, mm, ss) = (rem / 3600, (rem % 3600) / 60, rem % 60);
+        let st = if style == 4 { rng.below(4) } else { style };
+        match st {
+            0 => format!("{}-{}-{}T{}:{:02}:{:02}", y, m, d, hh, mm, ss),
+            1 => format!("{:04}-{:02}-{:02} {:02}:{:02}:{:02}", y, m, d, hh, mm, ss),
+            2 => format!("{:04}-{:02}-{:02}T{:02}:{:02}:{:02}Z", y, m, d, hh, mm, ss),
+            _ => {
+                if ss == 0 {
+                    format!("{}-{:02}-{}T{}:{:02}", y, m, d, hh, mm)
+                } else {
+                    format!("{}-{:02}-{}T{}:{:02}:{:02}", y, m, d, hh, mm, ss)
+                }
+            }
+        }
+    }
+    fn walk(rng: &mut Rng, style: u64, v: &mut Value) {
+        match v {
+            Value::Object(m) => {
+                for (k, c) in m.iter_mut() {
+                    if matches!(k.as_str(), "departure" | "start" | "end") {
+                        if let Some(s) = c.as_str().map(|s| s.to_string()) {
+                            *c = json!(respell(rng, style, &s));
+                            continue;
+                        }
+                    }
+                    walk(rng, style, c);
+                }
+            }
+            Value::Array(a) => {
+                for c in a.iter_mut() {
+                    walk(rng, style, c);
+                }
+            }
+            _ => {}
+        }
+    }
+    walk(rng, style, x);
 }
 
 /// values at the far end of what the input format allows (all counts are 32-bit in the model):
